@@ -4,8 +4,8 @@ PID = "C18"
 _T = """c18_weights_lt1 c18_weights_nan c18_weights_valid c18_gen_budget_lt1 c18_gen_budget_nan
 c18_gen_form_circuit c18_gen_form_dict c18_gen_q1_unseparated c18_gen_label c18_gen_phase_dict c18_gen_obs_size c18_gen_valid_circuit c18_gen_valid_dict
 c18_pp_label_count c18_pp_obs_size c18_pp_phase c18_pp_clbits c18_pp_wide_gate c18_pp_unsupported c18_pp_none_label c18_pp_valid c18_pp_idle_explicit c18_pp_idle_auto
-c18_pcq_label_count c18_pcq_wide_gate c18_pcq_unsupported c18_pcq_frame c18_pcq_valid
-c18_cg_clbits c18_cg_unsupported c18_cg_unsupported_total c18_cg_frame c18_cg_valid
+c18_pcq_label_count c18_pcq_wide_gate c18_pcq_unsupported c18_pcq_frame_def c18_pcq_valid
+c18_cg_clbits c18_cg_unsupported c18_cg_unsupported_total c18_cg_frame_def c18_cg_valid
 c18_fi_unbound c18_fi_matrix c18_fi_unsupported c18_fi_valid_registered c18_fi_valid_kak c18_theta_unbound
 c18_device_width c18_device_valid c18_settings_gamma c18_settings_backjumps c18_settings_valid
 c18_fc_gamma c18_fc_backjumps c18_fc_wide_gate c18_fc_unbound c18_fc_valid
@@ -16,9 +16,11 @@ c18_basis_empty c18_basis_wide c18_basis_ragged c18_basis_coeffs c18_set_coeffs 
 c18_bid_range c18_q1_half c18_q1_bid c18_q1_valid c18_q2_arity c18_q2_bid c18_q2_valid
 c18_sep_label_count c18_sep_none_used c18_sep_spans c18_sep_valid c18_exp_count c18_exp_missing c18_exp_valid
 c18_sim_conditioned c18_sim_clbits c18_mgo_empty c18_mgo_not_pauli c18_mgo_size c18_cog_phase
-c18_f7_interleaved_breaks_frame c18_f12_interleaved_breaks_frame c18_f13_interleaved_breaks_frame
 c18_facts_decompose_guards
-c18_skel_simulate c18_skel_reconstruct c18_skel_partition_problem""".split()
+c18_skel_simulate c18_skel_reconstruct c18_skel_partition_problem
+c18_skeleton_simulate c18_skeleton_reconstruct c18_skeleton_partition_problem c18_skeleton_pcq c18_skeleton_cut_gates c18_skeleton_decompose
+c18_pcq_stores_dominated c18_cg_stores_dominated c18_dq_stores_not_dominated
+c18_dq_valid_no_maps c18_bid_valid c18_sim_valid c18_cog_valid""".split()
 
 ENTRY = dict(
         title="Malformed requests are refused with the documented error, never mis-computed",
@@ -29,15 +31,23 @@ ENTRY = dict(
         facts=["value_error_sites", "c18_guards", "c18_sim_cond_guard_first", "c18_skeletons"],
         harness="c18",
         level_text="Unbounded theorems about the executable model of the validation blocks of 29 functions (22 entry points): one implication "
-                   "per documented error class, each for EVERY position of the offending element and arbitrary other input (all list "
-                   "lengths, all rationals incl. NaN/inf budgets), the frame theorems (a refusal leaves the argument of the three "
-                   "inplace-capable functions untouched; for decompose_qpd_instructions unconditionally: c18_dq_frame_total, via "
-                   "c18_dq_validate_covers), `never Proceeds` "
-                   "variants without the in-range hypotheses, and a converse `valid -> Proceeds` per entry point. Closed under the global "
-                   "context. The ordered guard list of every modelled function and its number of raise sites are regenerated facts that "
-                   "must equal what Properties/C18.v writes. The model is run against the implementation on >2500 generated calls per "
-                   "run with deep before/after snapshots of every argument.",
-        level_note=STD_NOTE + "No axioms.",
+                   "per documented error class, each for EVERY position of the offending element and arbitrary other input up to the "
+                   "stated in-range / otherwise-valid premises (all list lengths, all rationals incl. NaN/inf budgets); `never Proceeds` "
+                   "variants without the in-range premises. 'Arguments not modified' is PROVED only for decompose_qpd_instructions "
+                   "(c18_dq_frame_total, unconditional, via c18_dq_validate_covers); for partition_circuit_qubits and cut_gates the "
+                   "model is validate-then-mutate BY DEFINITION (c18_pcq_frame_def, c18_cg_frame_def are unfoldings) and the source is "
+                   "tied by the correspondence (observed argument state) and by a syntactic position fact on the regenerated control "
+                   "skeleton (c18_*_stores_dominated: no raise site reachable after a store into circuit.data); for the other 19 entry "
+                   "points it is compared by snapshots only. The `*_valid` theorems (for 19 api functions; none for most_general_observable, the "
+                   "coeffs setter and _theta_from_instruction) read the model backwards: no modelled guard fires -> Proceeds; they only show that the model is not constantly Refused. For "
+                   "partition_problem, reconstruct_expectation_values and simulate_statevector_outcomes the decision procedure is "
+                   "regenerated from the Python AST (c18_skeleton_* tie the decoded tree to the source) and proved equal to the "
+                   "hand-written api_* for all inputs (c18_skel_*). Closed under the global context. The ordered guard list of every "
+                   "modelled function and its number of raise sites are regenerated facts that must equal what Properties/C18.v "
+                   "writes. The model is run against the implementation on >2600 generated calls per run with deep before/after "
+                   "snapshots of every argument.",
+        level_note=STD_NOTE + "No axioms. Remaining hypotheses are all input preconditions (indices in range, non-empty qubit lists, "
+                   "otherwise-valid input); none is a physics/oracle or success-case hypothesis.",
         assumptions=[
             "REGENERATED DECISION PROCEDURES (c18_skel_*): for partition_problem, reconstruct_expectation_values and "
             "simulate_statevector_outcomes the guard-relevant control skeleton (nesting, order, branches, loops, calls of "
@@ -45,6 +55,17 @@ ENTRY = dict(
             "prove it equal to the hand-written api_* for all inputs. Hand-written there: only the meaning of each atomic test "
             "(keyed by its source text) and of the collections loops range over, in terms of the input abstraction. The other "
             "26 modelled functions are tied by the ordered guard-text lists (and the simulate position fact) only",
+            "LIMITS of the regenerated skeletons: (i) the slice has NO DATA FLOW: a statement inserted between two guards that "
+            "reassigns a tested variable (`observables = None`) changes neither the skeleton nor the atoms; (ii) only calls of the "
+            "functions in the WATCH list are kept: `ObservableCollection(...)` (runs CommutingObservableGroup.__post_init__ and "
+            "most_general_observable) is not watched, so its refusals inside reconstruct_expectation_values / "
+            "generate_cutting_experiments are invisible to the skeleton (the phase refusal of the dictionary form is in the hand "
+            "model only); (iii) in partition_problem the call of partition_circuit_qubits is interpreted as its gate loop only and "
+            "separate_circuit as its None-label check only (their label-count and spans-partitions sites are unreachable after the "
+            "first guard and after cutting: argued, not proved); (iv) atoms `idle_observables is not None` -> true and "
+            "`obs.z.any()` -> false are conventions of the abstraction (an element records only whether the observable acts on a "
+            "None-labelled qubit); (v) `dominated` is a syntactic check on the tree (its definition is its meaning; no "
+            "execution-level soundness theorem); `continue` statements are ignored by it",
             "Model/Validation.v is a hand-written model of the VALIDATION blocks only (Proceeds = validation passed; what the function "
             "then computes is the business of C01..C17); tied to the source by the extracted ordered guard lists (c18_guards) and by "
             "the C18 correspondence",
@@ -52,8 +73,9 @@ ENTRY = dict(
             "result counts) is computed by the harness from the real argument objects; the NUMBER of commuting groups is taken from the "
             "implementation's own ObservableCollection (it is the choice of a colouring heuristic, so no independent value exists); the "
             "harness monitors that these groups are a qubit-wise commuting partition of the distinct observables",
-            "'arguments unchanged' is proved in the model only for decompose_qpd_instructions / partition_circuit_qubits / cut_gates "
-            "(state functions *_final, validate-then-mutate behaviour of the repairs F7/F12/F13 and c8b859e/32107ac); for every other "
+            "'arguments unchanged' is PROVED only for decompose_qpd_instructions (state function dq_final; that the pre-check loop "
+            "precedes the assignment loop is pinned by c18_skeleton_decompose); for partition_circuit_qubits / cut_gates the state "
+            "functions pcq_final / cg_final are validate-then-mutate by definition (see level_text); for every other "
             "entry point it is only COMPARED: deep canonical snapshots of all arguments before/after each generated call (circuit data, "
             "registers, name, metadata, global phase, QPD bases incl. coefficients, Pauli lists, result contents); a cached "
             "Instruction._definition is not part of the snapshot",
